@@ -732,6 +732,19 @@ def field_mechanism(field, before):
     return ('snapshot', field.split('.')[0], 'differs-after-reload')
 
 
+def _locale_open(enc):
+    """open() as it behaves in a process whose locale encoding is `enc` (text mode, no explicit
+    encoding -> the locale's); everything else untouched."""
+    import builtins
+
+    def opener(file, mode='r', buffering=-1, encoding=None, errors=None, newline=None,
+               closefd=True, opener=None):
+        if 'b' not in mode and encoding is None:
+            encoding = enc
+        return builtins.open(file, mode, buffering, encoding, errors, newline, closefd, opener)
+    return opener
+
+
 def run_roundtrip(case, res):
     from bfg9000.environment import Environment
     from ..mon import envmon
@@ -811,6 +824,41 @@ def run_roundtrip(case, res):
                     'config': cfg, '__case__': sub})
             if seen:
                 continue
+            envmon.drain()
+
+            # ---- the same snapshot under another locale: every text file opened WITHOUT an
+            # explicit encoding is read / written in the invocation's locale encoding, which
+            # belongs to the ambient environment.  Written under UTF-8 and read back under an
+            # 8-bit code page, and the other way round, the configuration is the same.
+            import bfg9000.environment as _benv
+            for wenc, renc in (('utf-8', 'latin-1'), ('latin-1', 'utf-8'), ('cp1252', 'ascii')):
+                d2 = core.mkscratch('c09loc')
+                try:
+                    stage = 'save'
+                    try:
+                        _benv.open = _locale_open(wenc)
+                        env.save(d2)
+                        stage = 'load'
+                        _benv.open = _locale_open(renc)
+                        other = describe(Environment.load(d2))
+                    except Exception as e:
+                        other = {'raised': '%s under %s: %r' % (stage, wenc if stage == 'save'
+                                                                else renc, e)}
+                    finally:
+                        del _benv.open
+                    res.ev('rt:other-locale-roundtrips')
+                    if other != after:
+                        fields = ['raised'] if 'raised' in other else diff_fields(after, other)
+                        res.violate(('snapshot', 'locale-encoding-dependent', fields[0].split('.')[0]),
+                                    {'written_under': wenc, 'read_under': renc, 'fields': fields[:6],
+                                     'other': other.get('raised') or
+                                     {f.split('.')[0]: other.get(f.split('.')[0]) for f in fields[:3]},
+                                     'same_locale': {f.split('.')[0]: after.get(f.split('.')[0])
+                                                     for f in fields[:3] if f != 'raised'},
+                                     'config': cfg, '__case__': sub})
+                        break
+                finally:
+                    core.rmtree(d2)
             envmon.drain()
 
             # ---- older snapshots
